@@ -389,3 +389,221 @@ theorem consumeFieldValue_depth_mono {num typ : Nat} {b : List Byte} {d d' : Int
   · simp at h
 
 end Spec
+namespace Spec
+
+/-! ### extension locality: a successful parse is unaffected by bytes appended to the buffer -/
+
+theorem decVarintAux_ext : ∀ (b : List Byte) (i : Nat) (r : Nat × Nat) (t : List Byte),
+    decVarintAux i b = .ok r → decVarintAux i (b ++ t) = .ok r
+  | [], i, r, t, h => by simp [decVarintAux] at h
+  | x :: b, i, r, t, h => by
+    simp only [List.cons_append]
+    unfold decVarintAux at h ⊢
+    by_cases h9 : i ≥ 9
+    · simp only [h9, if_true] at h ⊢; exact h
+    · simp only [h9, if_false] at h ⊢
+      by_cases hlt : x.toNat < 128
+      · simp only [hlt, if_true] at h ⊢; exact h
+      · simp only [hlt, if_false] at h ⊢
+        split at h
+        · rename_i v n heq
+          rw [decVarintAux_ext b (i + 1) (v, n) t heq]; exact h
+        · simp at h
+
+theorem decVarint_ext {b : List Byte} {r : Nat × Nat} (t : List Byte) (h : decVarint b = .ok r) :
+    decVarint (b ++ t) = .ok r := decVarintAux_ext b 0 r t h
+
+theorem decTag_ext {b : List Byte} {r : Nat × Nat × Nat} (t : List Byte) (h : decTag b = .ok r) :
+    decTag (b ++ t) = .ok r := by
+  unfold decTag at h ⊢
+  split at h
+  · simp at h
+  · rename_i v n heq
+    rw [decVarint_ext t heq]; exact h
+
+theorem decFixed_ext {k : Nat} {b : List Byte} {r : Nat × Nat} (t : List Byte) (h : decFixed k b = .ok r) :
+    decFixed k (b ++ t) = .ok r := by
+  unfold decFixed at h ⊢
+  split at h
+  · simp at h
+  · rename_i hl
+    have : ¬ (b ++ t).length < k := by simp only [List.length_append]; omega
+    simp only [this, if_false]
+    rw [List.take_append_of_le_length (by omega)]; exact h
+
+theorem decBytes_ext {b : List Byte} {r : List Byte × Nat} (t : List Byte) (h : decBytes b = .ok r) :
+    decBytes (b ++ t) = .ok r := by
+  unfold decBytes at h ⊢
+  split at h
+  · simp at h
+  · rename_i m n heq
+    have hn := decVarint_len heq
+    rw [decVarint_ext t heq]
+    simp only at h ⊢
+    split at h
+    · simp at h
+    · rename_i hm
+      have hd : (b ++ t).drop n = b.drop n ++ t := List.drop_append_of_le_length hn.2
+      rw [hd]
+      have : ¬ m > (b.drop n ++ t).length := by simp only [List.length_append]; omega
+      simp only [this, if_false]
+      rw [List.take_append_of_le_length (by omega)]; exact h
+
+theorem decFixed_len {k : Nat} {b : List Byte} {v n : Nat} (h : decFixed k b = .ok (v, n)) : n ≤ b.length := by
+  unfold decFixed at h
+  split at h
+  · simp at h
+  · simp only [Except.ok.injEq, Prod.mk.injEq] at h; omega
+
+theorem decBytes_len {b : List Byte} {p : List Byte} {n : Nat} (h : decBytes b = .ok (p, n)) : n ≤ b.length := by
+  unfold decBytes at h
+  split at h
+  · simp at h
+  · rename_i m n' heq
+    have hn := decVarint_len heq
+    split at h
+    · simp at h
+    · rename_i hm
+      simp only [Except.ok.injEq, Prod.mk.injEq] at h
+      simp only [List.length_drop] at hm
+      omega
+
+/-- consumed lengths never exceed the buffer -/
+theorem fieldValueLen_le : ∀ (fuel : Nat),
+    (∀ num typ b (d : Int) n, fieldValueLen fuel num typ b d = some (.ok n) → n ≤ b.length) ∧
+    (∀ num b (d : Int) acc n, groupLen fuel num b d acc = some (.ok n) → acc ≤ n ∧ n - acc ≤ b.length)
+  | 0 => by constructor <;> intros <;> simp_all [fieldValueLen, groupLen]
+  | fuel + 1 => by
+    have ih := fieldValueLen_le fuel
+    constructor
+    · intro num typ b d n h
+      unfold fieldValueLen at h
+      split at h
+      · simp only [Option.some.injEq] at h
+        cases hd : decVarint b with
+        | error e => simp [hd, Except.map] at h
+        | ok r => obtain ⟨v, k⟩ := r; simp [hd, Except.map] at h; subst h; exact (decVarint_len hd).2
+      · simp only [Option.some.injEq] at h
+        cases hd : decFixed 4 b with
+        | error e => simp [hd, Except.map] at h
+        | ok r => obtain ⟨v, k⟩ := r; simp [hd, Except.map] at h; subst h; exact decFixed_len hd
+      · simp only [Option.some.injEq] at h
+        cases hd : decFixed 8 b with
+        | error e => simp [hd, Except.map] at h
+        | ok r => obtain ⟨v, k⟩ := r; simp [hd, Except.map] at h; subst h; exact decFixed_len hd
+      · simp only [Option.some.injEq] at h
+        cases hd : decBytes b with
+        | error e => simp [hd, Except.map] at h
+        | ok r => obtain ⟨v, k⟩ := r; simp [hd, Except.map] at h; subst h; exact decBytes_len hd
+      · split at h
+        · simp at h
+        · have := ih.2 _ _ _ _ _ h; omega
+      · simp at h
+      · simp at h
+    · intro num b d acc n h
+      unfold groupLen at h
+      split at h
+      · simp at h
+      · rename_i num2 typ2 n2 heq
+        have htl := decTag_len heq
+        simp only at h
+        by_cases h4 : typ2 = 4
+        · simp only [h4, if_true] at h
+          split at h
+          · simp at h
+          · simp only [Option.some.injEq, Except.ok.injEq] at h; omega
+        · simp only [h4, if_false] at h
+          split at h
+          · simp at h
+          · simp at h
+          · rename_i m hm
+            have h1 := ih.1 _ _ _ _ _ hm
+            have h2 := ih.2 _ _ _ _ _ h
+            simp only [List.length_drop] at h1 h2
+            omega
+
+/-- more fuel, a larger nesting budget and appended bytes do not change a successful result -/
+theorem fieldValueLen_mono : ∀ (fuel : Nat),
+    (∀ num typ b (d : Int) n, fieldValueLen fuel num typ b d = some (.ok n) →
+        ∀ fuel' (d' : Int) t, fuel ≤ fuel' → d ≤ d' → fieldValueLen fuel' num typ (b ++ t) d' = some (.ok n)) ∧
+    (∀ num b (d : Int) acc n, groupLen fuel num b d acc = some (.ok n) →
+        ∀ fuel' (d' : Int) t, fuel ≤ fuel' → d ≤ d' → groupLen fuel' num (b ++ t) d' acc = some (.ok n))
+  | 0 => by constructor <;> intros <;> simp_all [fieldValueLen, groupLen]
+  | fuel + 1 => by
+    have ih := fieldValueLen_mono fuel
+    constructor
+    · intro num typ b d n h fuel' d' t hf hd
+      cases fuel' with
+      | zero => omega
+      | succ fu' =>
+      unfold fieldValueLen at h ⊢
+      split at h
+      · simp only [Option.some.injEq] at h ⊢
+        cases hv : decVarint b with
+        | error e => simp [hv, Except.map] at h
+        | ok r => rw [decVarint_ext t hv]; rw [hv] at h; exact h
+      · simp only [Option.some.injEq] at h ⊢
+        cases hv : decFixed 4 b with
+        | error e => simp [hv, Except.map] at h
+        | ok r => rw [decFixed_ext t hv]; rw [hv] at h; exact h
+      · simp only [Option.some.injEq] at h ⊢
+        cases hv : decFixed 8 b with
+        | error e => simp [hv, Except.map] at h
+        | ok r => rw [decFixed_ext t hv]; rw [hv] at h; exact h
+      · simp only [Option.some.injEq] at h ⊢
+        cases hv : decBytes b with
+        | error e => simp [hv, Except.map] at h
+        | ok r => rw [decBytes_ext t hv]; rw [hv] at h; exact h
+      · split at h
+        · simp at h
+        · have : ¬ d' < 0 := by omega
+          simp only [this, if_false]
+          exact ih.2 _ _ _ _ _ h fu' d' t (by omega) hd
+      · simp at h
+      · simp at h
+    · intro num b d acc n h fuel' d' t hf hd
+      cases fuel' with
+      | zero => omega
+      | succ fu' =>
+      unfold groupLen at h ⊢
+      split at h
+      · simp at h
+      · rename_i num2 typ2 n2 heq
+        have htl := decTag_len heq
+        rw [decTag_ext t heq]
+        simp only at h ⊢
+        by_cases h4 : typ2 = 4
+        · simp only [h4, if_true] at h ⊢; exact h
+        · simp only [h4, if_false] at h ⊢
+          split at h
+          · simp at h
+          · simp at h
+          · rename_i m hm
+            have hml := (fieldValueLen_le fuel).1 _ _ _ _ _ hm
+            have e1 : (b ++ t).drop n2 = b.drop n2 ++ t := List.drop_append_of_le_length htl.2
+            rw [e1, ih.1 _ _ _ _ _ hm fu' (d' - 1) t (by omega) (by omega)]
+            simp only
+            have e2 : (b.drop n2 ++ t).drop m = (b.drop n2).drop m ++ t := List.drop_append_of_le_length hml
+            rw [e2]
+            exact ih.2 _ _ _ _ _ h fu' d' t (by omega) hd
+
+/-! ### minimal varints do not end in a byte whose low seven bits are zero -/
+
+theorem encVarint_last (n : Nat) (hn : n ≠ 0) :
+    ∃ (init : List Byte) (x : Byte), encVarint n = init ++ [x] ∧ x.toNat % 128 ≠ 0 := by
+  induction n using Nat.strongRecOn with
+  | _ n ih =>
+    by_cases h : n < 128
+    · refine ⟨[], BitVec.ofNat 8 n, by rw [encVarint_lt h]; rfl, ?_⟩
+      simp only [BitVec.toNat_ofNat]; omega
+    · obtain ⟨init, x, he, hx⟩ := ih (n / 128) (by omega) (by omega)
+      exact ⟨BitVec.ofNat 8 (n % 128 + 128) :: init, x, by rw [encVarint_ge h, he]; rfl, hx⟩
+
+theorem stripZeros7_snoc (init : List Byte) (x : Byte) (hx : x.toNat % 128 ≠ 0) :
+    stripZeros7 (init ++ [x]) = init ++ [x] := by
+  unfold stripZeros7
+  simp only [List.reverse_append, List.reverse_cons, List.reverse_nil, List.nil_append, List.singleton_append]
+  rw [List.dropWhile_cons_of_neg (by simpa using hx)]
+  simp
+
+end Spec
